@@ -11,11 +11,12 @@
      dump (raw) loop: read_task_ustack directly - NO look-ahead filter                -> [raw_step]
      replay / script loop shape (--no-libcall tested BEFORE fstack_entry)             -> [rp_step]
 
-   One task, one session, user ENTRY/EXIT records only.  Not modelled: kernel/perf/event/LOST
-   records, several tasks (fstack_enabled is shared between tasks), -Z/size=, -L (needs DWARF),
-   elapsed-time ranges, --trace=off, exec/setjmp/fork fix-ups, stack deeper than max_stack.
+   One session, user ENTRY/EXIT records only; first for one task, then (last sections) for several tasks
+   merged by timestamp with ONE shared fstack_enabled.  Not modelled: kernel/perf/event/LOST records,
+   -Z/size=, -L (needs DWARF), elapsed-time ranges, --trace=off, exec/setjmp/fork fix-ups (tasks are threads),
+   stack deeper than max_stack.
 
-   The spec side ([tprune], [vis], [select]) is written by recursion on call trees.
+   The spec side ([tprune], [vis], [select], [vis_sw], [select_sw]) is written by recursion on call trees.
    NO proofs in this file.                                                                     *)
 From Coq Require Import NArith ZArith List Bool.
 Import ListNotations.
@@ -502,3 +503,188 @@ Definition mkcfg (tr : list (N * rtrig)) (fm cl : bool) (gd : Z) (thr rs re : N)
   {| trig_of := assoc notrig tr; fmode_in := fm; caller_filter := cl; gdepth := gd; threshold := thr;
      range_start := rs; range_stop := re; is_plt := fun k => existsb (fun x => (x =? k)%N) plt;
      libcall := lc; no_merge := nm |}.
+
+(* ------------------------------------------------------------------ several tasks *)
+(* Every task has its own data file, look-ahead list (get_task_ustack) and filter state; the commands read
+   the records of all tasks merged by timestamp (read_user_stack: strictly smaller time wins, so the
+   lowest task index wins ties); fstack_enabled (trace_on / trace_off) is ONE global flag. *)
+Definition trec := (nat * rec)%type.                 (* task index, record *)
+
+(* index of the stream whose first record is the oldest *)
+Fixpoint pick_from (ss : list (list rec)) (i : nat) (best : option (nat * N)) : option (nat * N) :=
+  match ss with
+  | [] => best
+  | s :: rest =>
+      let best' := match s with
+                   | [] => best
+                   | r :: _ => match best with
+                               | None => Some (i, r_time r)
+                               | Some (_, tb) => if (r_time r <? tb)%N then Some (i, r_time r) else best
+                               end
+                   end in
+      pick_from rest (S i) best'
+  end.
+Fixpoint drop_head (ss : list (list rec)) (i : nat) : list (list rec) :=
+  match ss, i with
+  | [], _ => []
+  | s :: rest, O => tl s :: rest
+  | s :: rest, S j => s :: drop_head rest j
+  end.
+Fixpoint merge (fuel : nat) (ss : list (list rec)) : list trec :=
+  match fuel with
+  | O => []
+  | S fu =>
+      match pick_from ss 0 None with
+      | None => []
+      | Some (i, _) =>
+          match nth i ss [] with
+          | [] => []
+          | r :: _ => (i, r) :: merge fu (drop_head ss i)
+          end
+      end
+  end.
+Definition total_len (ss : list (list rec)) : nat := fold_right (fun s n => (length s + n)%nat) 0%nat ss.
+Definition merged (c : cfg) (ss : list (list rec)) : list trec :=
+  let ps := map (pre c) ss in merge (total_len ps) ps.
+
+Record mst := { m_tasks : nat -> st; m_enabled : bool }.
+Definition with_enabled (s : st) (b : bool) : st :=
+  {| below := below s; above := above s; inc := inc s; outc := outc s; fdepth := fdepth s; enabled := b;
+     disp := disp s; disp_set := disp_set s; started := started s |}.
+Fixpoint upd {A} (i : nat) (v : A) (l : list A) : list A :=
+  match l, i with
+  | [], _ => []
+  | _ :: r, O => v :: r
+  | x :: r, S j => x :: upd j v r
+  end.
+Definition m_init (c : cfg) : mst := {| m_tasks := fun _ => st0 c; m_enabled := true |}.
+(* a task's state as the code sees it: its own fields plus the shared flag *)
+Definition task_of (m : mst) (t : nat) : st := with_enabled (m_tasks m t) (m_enabled m).
+Definition put_task (m : mst) (t : nat) (s : st) : mst :=
+  {| m_tasks := fun t' => if Nat.eqb t' t then s else m_tasks m t'; m_enabled := enabled s |}.
+
+Definition tev := (nat * vev)%type.
+Definition m_std_step (c : cfg) (m : mst) (tr : trec) : mst * list tev :=
+  let '(t, r) := tr in
+  let '(s', o) := std_step c (task_of m t) r in (put_task m t s', map (pair t) o).
+
+Fixpoint m_run {S} (step : S -> trec -> S * list tev) (s : S) (trs : list trec) : S * list tev :=
+  match trs with
+  | [] => (s, [])
+  | x :: r => let '(s1, o1) := step s x in let '(s2, o2) := m_run step s1 r in (s2, o1 ++ o2)
+  end.
+
+Definition run_std_m (c : cfg) (ss : list (list rec)) : list tev :=
+  snd (m_run (m_std_step c) (m_init c) (merged c ss)).
+
+(* dump --chrome: after the last record the open calls of every task are closed, task by task *)
+Definition last_time (rs : list rec) : N := r_time (last rs {| r_time := 0; r_type := EXIT; r_depth := 0; r_fn := 0 |}).
+Definition run_chrome_m (c : cfg) (ss : list (list rec)) : list tev :=
+  let '(m, o) := m_run (m_std_step c) (m_init c) (merged c ss) in
+  o ++ flat_map (fun t => map (pair t) (chrome_close c (task_of m t) (last_time (pre c (nth t ss [])))))
+                (seq 0 (length ss)).
+Definition remaining_m (c : cfg) (ss : list (list rec)) : list N :=
+  let m := fst (m_run (m_std_step c) (m_init c) (merged c ss)) in
+  flat_map (fun t => map sl_fn (below (m_tasks m t))) (seq 0 (length ss)).
+
+(* dump (raw): one data file after the other, not merged; the global flag is carried over *)
+Definition run_raw_m (c : cfg) (ss : list (list rec)) : list tev :=
+  snd (fold_left (fun (acc : bool * nat * list tev) rs =>
+                    let '(en, t, out) := acc in
+                    let '(s, o) := run_steps (raw_step c) (with_enabled (st0 c) en) rs in
+                    (enabled s, S t, out ++ map (pair t) o))
+                 ss (true, 0%nat, [])).
+
+(* replay / script over several tasks: fstack_skip() peeks at the globally next record *)
+Inductive mmode := MNormal | MSkipping (t : nat) (e : rec) (d : Z).
+Definition lift_mode (t : nat) (m : mode) : mmode :=
+  match m with Normal => MNormal | Skipping e d => MSkipping t e d end.
+
+Definition m_rp_normal (c : cfg) (m : mst) (t : nat) (r : rec) : (mst * mmode) * list tev :=
+  let '((s', md), o) := rp_normal c (task_of m t) r in ((put_task m t s', lift_mode t md), map (pair t) o).
+
+Definition m_rp_step (c : cfg) (mm : mst * mmode) (tr : trec) : (mst * mmode) * list tev :=
+  let '(m, md) := mm in
+  let '(t, r) := tr in
+  match md with
+  | MNormal => m_rp_normal c m t r
+  | MSkipping te e d =>
+      let pend := (te, mkev false e d) in
+      let print_pending (m0 : mst) : mst := put_task m0 te (update_entry (task_of m0 te)) in
+      let go_on :=                                     (* not a leaf: print the ENTRY, main loop reads r *)
+        let '(mm', o) := m_rp_normal c (print_pending m) t r in (mm', pend :: o) in
+      let swallow :=
+        let s1 := consume c (task_of m t) r in
+        let s2 := match r_type r with ENTRY => fst (fstack_entry c s1 r) | EXIT => fstack_exit c s1 end in
+        let m2 := put_task m t s2 in
+        if enabled s2 then ((m2, MSkipping te e d), [])
+        else ((print_pending m2, MNormal), [pend]) in
+      if Nat.eqb t te && (r_depth r <=? r_depth e) then
+        match r_type r with
+        | EXIT =>
+            if r_depth r =? r_depth e
+            then ((put_task m t (fstack_exit c (consume c (task_of m t) r)), MNormal), [pend; (t, mkev true r d)])
+            else go_on
+        | ENTRY => go_on
+        end
+      else if hidden_plt c (r_fn r) then swallow
+      else if check_skip c (task_of m t) r >=? 0 then go_on
+      else swallow
+  end.
+Definition m_rp_finish (mm : mst * mmode) : list tev :=
+  match snd mm with MNormal => [] | MSkipping t e d => [(t, mkev false e d)] end.
+Definition run_rp_m (c : cfg) (ss : list (list rec)) : list tev :=
+  let '(mm, o) := m_run (m_rp_step c) (m_init c, MNormal) (merged c ss) in o ++ m_rp_finish mm.
+Definition run_script_m (c : cfg) (ss : list (list rec)) : list tev := run_rp_m (set_no_merge c true) ss.
+
+(* graph: one tree per session, every task keeps its own current node *)
+Fixpoint graph_build_m (evs : list (nat * (bool * N))) (paths : list (list N)) (kids : list gnode) : list gnode :=
+  match evs with
+  | [] => kids
+  | (t, (false, f)) :: r =>
+      let path := nth t paths [] in graph_build_m r (upd t (path ++ [f]) paths) (g_enter path f kids)
+  | (t, (true, _)) :: r => graph_build_m r (upd t (removelast (nth t paths [])) paths) kids
+  end.
+Definition graph_of_m (n : nat) (evs : list tev) : list (N * N * N) :=
+  flat_map (g_flat 0) (graph_build_m (map (fun p => (fst p, ob_n (snd p))) evs) (repeat [] n) []).
+
+(* ------------------------------------------------------------------ trace_on / trace_off: the documented switch *)
+(* One switch along the order of events (shared by all tasks; here one task): a trace_off function and
+   everything after it is not shown until a trace_on function is entered; the switch is only touched by
+   functions the filters -F/-N let through.  Nesting budget not limiting (no -D hit, no depth=, no -H). *)
+Fixpoint vis_sw (c : cfg) (inF on : bool) (n : call) : list (bool * N) * bool :=
+  match n with
+  | Call f t0 t1 ks =>
+      let tr := trig_of c f in
+      let kids := fix go (inF' on0 : bool) (l : list call) : list (bool * N) * bool :=
+                    match l with
+                    | [] => ([], on0)
+                    | k :: r => let '(o1, b1) := vis_sw c inF' on0 k in
+                                let '(o2, b2) := go inF' b1 r in (o1 ++ o2, b2)
+                    end in
+      match q_filter tr with
+      | Some false => ([], on)
+      | qf =>
+          let isF := match qf with Some true => true | _ => false end in
+          if negb isF && fmode_in c && negb inF then kids false on ks
+          else
+            let on1 := if q_trace_off tr then false else if q_trace_on tr then true else on in
+            let '(ko, on2) := kids (inF || isF) on1 ks in
+            let shown := negb (hidden_plt c f) in
+            ((if on1 && shown then [(false, f)] else []) ++ ko ++ (if on2 && shown then [(true, f)] else []), on2)
+      end
+  end.
+Fixpoint vis_sw_list (c : cfg) (inF on : bool) (l : list call) : list (bool * N) * bool :=
+  match l with
+  | [] => ([], on)
+  | k :: r => let '(o1, b1) := vis_sw c inF on k in
+              let '(o2, b2) := vis_sw_list c inF b1 r in (o1 ++ o2, b2)
+  end.
+Definition select_sw (c : cfg) (f : list call) : list (bool * N) :=
+  fst (vis_sw_list c false true (flat_map (tprune c (threshold c)) f)).
+
+(* the class: no depth= / -H anywhere, -D not reached *)
+Definition sw_class (c : cfg) (fns : list N) (hmax : Z) : bool :=
+  forallb (fun k => match q_depth (trig_of c k) with None => true | Some _ => false end
+                    && negb (q_hide (trig_of c k))) fns
+  && (hmax <=? gdepth c).
